@@ -2,20 +2,41 @@
 
 Correspondence: the real chemicals `Forcing` (synthetic float64 ROMS files, 1..3 files) driven through
 `update(t)` on consecutive / late / gapped schedules against the Lean state machine (`Roms.init`,
-`Roms.update`), bit-exact at sample cells, together with the frame-step table (`forcing_steps`).
-Oracle: served velocity = linear interpolation in *time* of the two enclosing file frames; scalars between
-the two frames and equal to the frame at coinciding steps."""
+`Roms.update`), bit-exact at sample cells (U with the first scalar, V with the second scalar), together with
+the frame-step table (`forcing_steps`).
+Oracle: served velocity (U and V, at three cells, and through `Forcing.velocity(X, Y, Z)`) = linear interpolation
+in *time* of the two enclosing file frames; every scalar between the two frames and equal to the frame at
+coinciding steps.  Both the chemicals pairing (chemicals Grid + Forcing) and the mine pairing
+(`ladim_plugins.mine`: sedimentation Grid + chemicals Forcing) are driven."""
 import importlib, os, tempfile, shutil
 import numpy as np
 from .common import Driver, F, I, L, unF, same_bits, close
 from . import romsfile
 
-RULE = ("3..8 frames with random spacing (multiples of dt, or not), 1..3 files, start on a frame / between frames / any fraction, "
-        "dt in {60, 300, 600, 900}, schedules consecutive from 0, starting late (as LADiM does when the first release is later), with "
-        "gaps (no particles alive), up to the last frame. Non-trivial: every (file set, schedule) pair.")
-ASSUMPTIONS = ["float32 forcing files (the shipped int16-scaled file) are not compared bit-exactly; synthetic files are float64",
-               "interpolation oracle tolerance 1e-9 relative (accumulated increments vs closed-form lerp)"]
+RULE = ("3..8 frames with random spacing (multiples of dt, or not), 1..3 files, start on a frame / between frames (any whole number "
+        "of steps after a frame, or any fraction), dt in {60, 300, 600, 900}, schedules consecutive from 0, starting late (as LADiM "
+        "does when the first release is later), with gaps (no particles alive), up to the stop time = last frame or an earlier step; "
+        "step numbers passed as int or numpy.int64 (as LADiM does). Configurations: gridforce module chemicals or mine; input_file as "
+        "list / tuple / glob pattern / glob pattern trimmed by first_file+last_file (with decoy files outside the range); "
+        "ibm_forcing [] / [temp] / [temp, salt] / [AKs, temp]; files stored as float64, float32 or int16 with per-file "
+        "scale_factor/add_offset; ocean_time encoded per file in seconds/hours/days since the start or another epoch. "
+        "Observed: U, V and every scalar at three cells (bottom, middle, top level) and Forcing.velocity at the matching points. "
+        "Non-trivial: every (file set, schedule) pair.")
+ASSUMPTIONS = ["float32 and int16-scaled forcing files are judged by the oracle with a float32 tolerance and are not compared with the model; "
+               "the bit-exact model comparison uses the float64 files",
+               "interpolation oracle tolerance 1e-9 relative for float64 files (accumulated increments vs closed-form lerp); "
+               "1e-5 relative + 5e-6 absolute for float32/int16 files (the class keeps such fields in float32: |u| <= 0.5, at most 42 "
+               "accumulated float32 increments)",
+               "unaligned dt (known findings F-C06e-*): with strictly increasing truncated frame steps the deviation is accepted as the "
+               "known finding only if the served value is the step-indexed interpolation the design limitation predicts, and no "
+               "exception is accepted; anything else is reported under *.unaligned_dt.other / C06.update.raises"]
 SITE = "ladim_plugins/chemicals/gridforce.py::Forcing.update"
+SITE_INIT = "ladim_plugins/chemicals/gridforce.py::Forcing.__init__"
+SITE_VEL = "ladim_plugins/chemicals/gridforce.py::Forcing.velocity"
+
+NX, NY, NLEV = 7, 6, 3            # whole grid 7 x 6, default subgrid: imax = 5, jmax = 4
+EPOCHS = ["1970-01-01 00:00:00", "1948-01-01 00:00:00", "2015-01-01 00:00:00"]
+NAME_SETS = [[], ["temp"], ["temp"], ["temp", "salt"], ["AKs", "temp"]]
 
 
 def gen_case(rng):
@@ -31,123 +52,276 @@ def gen_case(rng):
         start_off = int(rel[rng.randrange(0, nfr - 1)])
     else:
         k = rng.randrange(0, nfr - 1)
-        span = rel[k + 1] - rel[k]
-        start_off = int(rel[k] + (rng.choice([dt, 2 * dt]) if aligned and span > dt else rng.randrange(1, max(2, span))))
+        span = int(rel[k + 1] - rel[k])
+        if aligned and span > dt and rng.random() < 0.85:
+            start_off = int(rel[k]) + rng.randrange(1, span // dt) * dt      # any whole number of steps after frame k, before frame k+1
+        else:
+            start_off = int(rel[k] + (rng.choice([dt, 2 * dt]) if aligned and span > dt else rng.randrange(1, max(2, span))))
         start_off = min(start_off, int(rel[k + 1]) - 1)
     frame_times = (rel - start_off).tolist()             # seconds since simulation start
     last = frame_times[-1]
     tmax = last // dt
+    # stop time: the last frame, or an earlier model step (the forcing period then extends beyond the run)
+    stop_step = None
+    if tmax >= 2 and rng.random() < 0.3:
+        stop_step = rng.randrange(1, tmax)
+    send = tmax if stop_step is None else stop_step
     kind = rng.choice(["consecutive", "late", "gaps", "late_gaps"])
     sched = []
-    t = 0 if kind in ("consecutive", "gaps") else rng.randrange(0, max(1, tmax // 2 + 1))
-    while t <= tmax and len(sched) < 60:
+    t = 0 if kind in ("consecutive", "gaps") else rng.randrange(0, max(1, send // 2 + 1))
+    while t <= send and len(sched) < 60:
         sched.append(int(t))
         t += 1 if kind in ("consecutive", "late") or rng.random() < 0.6 else rng.randrange(2, 6)
-    nfiles = rng.randrange(1, 4)
-    return dict(dt=dt, frame_times=frame_times, sched=sched, kind=kind, mode=mode, aligned=aligned, nfiles=min(nfiles, nfr - 1) or 1)
+    nfiles = min(rng.randrange(1, 4), nfr - 1) or 1
+    # configuration dimensions
+    plugin = rng.choice(["chemicals", "chemicals", "mine"])
+    form = rng.choice(["list", "list", "tuple", "pattern", "pattern_first_last"])
+    storage = rng.choice(["f8", "f8", "f8", "f4", "int16", "int16"])
+    names = list(rng.choice(NAME_SETS))
+    units = []
+    for _ in range(nfiles):
+        units.append(None if rng.random() < 0.5 else [rng.choice(["seconds", "hours", "days"]), rng.choice([None] + EPOCHS)])
+    cells = [[1, 2, 2], [0, rng.randrange(0, 4), rng.randrange(0, 5)], [NLEV - 1, rng.randrange(0, 4), rng.randrange(0, 5)]]
+    return dict(dt=dt, frame_times=frame_times, sched=sched, kind=kind, mode=mode, aligned=aligned, nfiles=nfiles,
+                stop_step=stop_step, plugin=plugin, form=form, storage=storage, names=names, units=units, cells=cells,
+                t_np=rng.random() < 0.5)
+
+
+def _pack_for(rng, names):
+    """per-file int16 packing: different scale factors for u and v, an offset for the scalars (velocities: offset 0, as the class assumes)"""
+    pack = {"u": (rng.choice([0.001, 0.0005, 0.002]), 0.0), "v": (rng.choice([0.001, 0.0005, 0.002]), 0.0)}
+    for nm in names:
+        if nm == "AKs":
+            pack[nm] = (rng.choice([1e-6, 5e-7]), rng.choice([0.0, 0.005]))
+        else:
+            pack[nm] = (rng.choice([0.001, 0.0005]), rng.choice([5.0, 0.0, 10.0]))
+    return pack
+
+
+def _lerp(x, xs, vals):
+    b = int(np.searchsorted(xs, x, side="right") - 1)
+    b = max(0, min(b, len(xs) - 2))
+    w = (x - xs[b]) / (xs[b + 1] - xs[b])
+    return vals[b] + w * (vals[b + 1] - vals[b]), b
 
 
 def run(ctx):
     G = importlib.import_module("ladim_plugins.chemicals.gridforce")
+    MINE = importlib.import_module("ladim_plugins.mine")
     drv = Driver()
     if getattr(ctx, "widened", False):
         drv.available = False
     pend = []
     tmp = tempfile.mkdtemp(prefix="verif_c06_")
     try:
-        for c in range(ctx.n(60, 800)):
+        for c in range(ctx.n(100, 1000)):
             case = gen_case(ctx.rng)
             dt = case["dt"]; ft = case["frame_times"]; sched = case["sched"]
             if not sched:
                 continue
+            names = case["names"]; storage = case["storage"]; form = case["form"]
             # split the frames over files
             nf = case["nfiles"]
             cuts = sorted(ctx.rng.sample(range(1, len(ft)), nf - 1)) if nf > 1 else []
             parts = [ft[a:b] for a, b in zip([0] + cuts, cuts + [len(ft)])]
             t0 = np.datetime64("2015-09-07T01:00:00")
-            files = []; frames_u = []; frames_s = []
-            cell = (1, 2, 2)            # (k, j, i) within the subgrid arrays U[k, j, i+?]
+            t0s = str(t0).replace("T", " ")
+            cdir = os.path.join(tmp, "c%d" % c)
+            os.makedirs(cdir)
+            files = []; fr = {"u": [], "v": []}
+            for nm in names:
+                fr[nm] = []
+
+            def write(path, part, u_i):
+                kw = {}
+                if storage == "int16":
+                    kw["pack"] = _pack_for(ctx.rng, names)
+                if case["units"][u_i] is not None:
+                    kw["time_unit"], kw["epoch"] = case["units"][u_i]
+                return romsfile.write_roms(path, ctx.rng, nx=NX, ny=NY, N=NLEV, frame_times=[int(x) for x in part], t0=t0s,
+                                           fields=tuple(names), dtype="f4" if storage == "f4" else "f8", **kw)
+
             for p_i, part in enumerate(parts):
-                path = os.path.join(tmp, "c%d_f%d.nc" % (c, p_i))
-                out = romsfile.write_roms(path, ctx.rng, nx=7, ny=6, N=3, frame_times=[int(x) for x in part],
-                                          t0=str(t0).replace("T", " "), fields=("temp",))
+                path = os.path.join(cdir, "f%02d.nc" % (p_i + 1))
+                out = write(path, part, p_i)
                 files.append(path)
-                frames_u.append(out["u"]); frames_s.append(out["temp"])
-            U_all = np.concatenate(frames_u); S_all = np.concatenate(frames_s)
-            conf = dict(gridforce=dict(input_file=files), start_time=t0, stop_time=t0 + np.timedelta64(int(ft[-1]), "s"),
-                        dt=dt, ibm_forcing=["temp"])
+                for key in fr:
+                    fr[key].append(out[key])
+            if form == "pattern_first_last":
+                # decoy files matched by the pattern but outside [first_file, last_file]: same times as the adjacent file, other values
+                write(os.path.join(cdir, "f00.nc"), parts[0], 0)
+                write(os.path.join(cdir, "f99.nc"), parts[-1], len(parts) - 1)
+            ALL = {key: np.concatenate(v) for key, v in fr.items()}
+            gf = {}
+            if form == "list":
+                gf["input_file"] = list(files)
+            elif form == "tuple":
+                gf["input_file"] = tuple(files)
+            else:
+                gf["input_file"] = os.path.join(cdir, "f*.nc")
+                if form == "pattern_first_last":
+                    gf["first_file"] = files[0]; gf["last_file"] = files[-1]
+            if case["plugin"] == "mine" and form in ("list", "tuple"):
+                gf["grid_file"] = files[0]          # the mine Grid (ladim ROMS Grid) takes a single file name or a pattern
+            stop_s = int(ft[-1]) if case["stop_step"] is None else int(case["stop_step"] * dt)
+            conf = dict(gridforce=gf, start_time=t0, stop_time=t0 + np.timedelta64(stop_s, "s"), dt=dt, ibm_forcing=list(names))
             cs = dict(case=case, files=len(files))
             ctx.case(key=repr(case), nontrivial=True, sample=case if c < 3 else None)
             ctx.branch("schedule." + case["kind"]); ctx.branch("start." + case["mode"]); ctx.branch("aligned" if case["aligned"] else "unaligned_dt")
+            ctx.branch("plugin." + case["plugin"]); ctx.branch("input." + form); ctx.branch("storage." + storage)
+            ctx.branch("ibm_forcing." + ("+".join(names) or "none"))
+            ctx.branch("stop.last_frame" if case["stop_step"] is None else "stop.before_last_frame")
+            ctx.branch("t_type.np_int64" if case["t_np"] else "t_type.int")
+            for un in case["units"]:
+                ctx.branch("time_units.default" if un is None else "time_units.%s.%s" % (un[0], "start" if un[1] is None else un[1][:4]))
+            GridC, ForC = (MINE.Grid, MINE.Forcing) if case["plugin"] == "mine" else (G.Grid, G.Forcing)
             try:
-                grid = G.Grid(conf); f = G.Forcing(conf, grid)
+                grid = GridC(conf); f = ForC(conf, grid)
             except SystemExit as e:
-                ctx.branch("rejected_by_forcing_init"); continue
-            # frame values at the sample cell, as the class reads them: U[frame, k, Ju, Iu] with Iu = slice(i0-1, i1)
-            k, j, i = cell
-            uvals = U_all[:, k, grid.j0 + j, grid.i0 - 1 + i]
-            svals = S_all[:, k, grid.j0 + j, grid.i0 + i]
+                # every generated configuration is valid: the forcing period covers [start, stop], the frames are strictly
+                # increasing in time and the files exist
+                ctx.branch("rejected_by_forcing_init")
+                ctx.oracle(False, "C06.init.rejected", SITE_INIT, "Grid/Forcing initialisation exits (%r) for a forcing period that covers the run: "
+                           "frames %r s, stop %d s, input %s" % (e, ft, stop_s, form), cs)
+                continue
+            except Exception as e:
+                ctx.oracle(False, "C06.init.raises", SITE_INIT, "Grid/Forcing initialisation raised %r: frames %r s, stop %d s, input %s, time units %r"
+                           % (e, ft, stop_s, form, case["units"]), cs)
+                continue
+            # frame values at the sample cells, as the class reads them: U[frame, k, Ju, Iu] with Iu = slice(i0-1, i1),
+            # V[frame, k, Jv, Iv] with Jv = slice(j0-1, j1), scalars [frame, k, J, I]
+            cells = [tuple(x) for x in case["cells"]]
+            uvals = [ALL["u"][:, k, grid.j0 + j, grid.i0 - 1 + i] for k, j, i in cells]
+            vvals = [ALL["v"][:, k, grid.j0 - 1 + j, grid.i0 + i] for k, j, i in cells]
+            svals = {nm: [ALL[nm][:, k, grid.j0 + j, grid.i0 + i] for k, j, i in cells] for nm in names}
+            # points where Forcing.velocity returns exactly one U (resp. V) node: X on a U-point, Y on a row, Z in the middle of layer k
+            zw = np.asarray(grid.z_w)
+
+            def zmid(k, jc, ic):
+                jc = max(0, min(int(jc), zw.shape[1] - 1)); ic = max(0, min(int(ic), zw.shape[2] - 1))
+                return -0.5 * (zw[k, jc, ic] + zw[k + 1, jc, ic])
+            XU = np.array([grid.i0 + i - 0.5 for k, j, i in cells]); YU = np.array([float(grid.j0 + j) for k, j, i in cells])
+            ZU = np.array([zmid(k, j, np.around(i - 0.5)) for k, j, i in cells])
+            XV = np.array([float(grid.i0 + i) for k, j, i in cells]); YV = np.array([grid.j0 + j - 0.5 for k, j, i in cells])
+            ZV = np.array([zmid(k, np.around(j - 0.5), i) for k, j, i in cells])
             served = []
             try:
                 for t in sched:
-                    f.update(t)
-                    served.append((float(f.U[k, j, i]), float(f.temp[k, j, i])))
+                    f.update(np.int64(t) if case["t_np"] else t)
+                    su = f.velocity(XU, YU, ZU)[0]; sv = f.velocity(XV, YV, ZV)[1]
+                    served.append(dict(U=[float(f.U[cl]) for cl in cells], V=[float(f.V[cl]) for cl in cells],
+                                       S={nm: [float(f[nm][cl]) for cl in cells] for nm in names},
+                                       velU=[float(x) for x in su], velV=[float(x) for x in sv]))
                 err = None
-            except Exception as e:
+            except (Exception, SystemExit) as e:
                 err = e
             try:
                 f.close()
             except Exception:
                 pass
+            aligned_frames = all(x % dt == 0 for x in ft)
+            steps_h = [int(x / dt) for x in ft]                   # the step table of the class: offsets truncated to whole steps
+            strict_h = all(x < y for x, y in zip(steps_h[:-1], steps_h[1:]))
+            if not aligned_frames:
+                ctx.branch("unaligned.strict_steps" if strict_h else "unaligned.duplicate_steps")
             if err is not None:
-                ctx.oracle(False, "C06.update.raises" if all(x % dt == 0 for x in ft) else "C06.update.raises_unaligned_dt", SITE,
+                # F-C06e-R (exception) is caused by two frames truncated to the same step; with distinct steps no exception is known
+                ctx.oracle(False, "C06.update.raises" if (aligned_frames or strict_h) else "C06.update.raises_unaligned_dt", SITE,
                            "update raised %r at schedule %r" % (err, sched), cs)
                 continue
             # oracle in *time*
             ft_arr = np.array(ft, dtype=float)
-            aligned_frames = all(x % dt == 0 for x in ft)
-            for t, (u, s) in zip(sched, served):
+            st_arr = np.array(steps_h, dtype=float)
+            if storage == "f8":
+                vrel, vabs, sabs = 1e-9, 1e-12, 1e-9
+            else:
+                # the class keeps float32 / int16-scaled fields in float32 (eps 6e-8): |u| <= 0.5, <= 42 accumulated increments;
+                # decoded scalars |s| <= 10 with float32 scale/offset arithmetic
+                vrel, vabs, sabs = 1e-5, 5e-6, 2e-6
+
+            def judge_velocity(val, vals, t, what, site, aligned_pred):
+                tm = t * dt
+                want, _ = _lerp(tm, ft_arr, vals)
+                okv = close(val, want, vrel, vabs)
+                if aligned_frames:
+                    pred = aligned_pred
+                elif not strict_h:
+                    pred = "C06.velocity.unaligned_dt"
+                else:
+                    # known finding F-C06e-U narrowed: the design limitation predicts interpolation between the frames placed at
+                    # their truncated steps; any other value is not the known finding
+                    want_s, _ = _lerp(float(t), st_arr, vals)
+                    pred = "C06.velocity.unaligned_dt" if close(val, want_s, vrel, vabs) else "C06.velocity.unaligned_dt.other"
+                # the unaligned-dt deviation is that of the stored field (known finding at Forcing.update), whichever way it is observed
+                ctx.oracle(okv, pred, site if aligned_frames else SITE, "step %d (%d s): served %s=%r, time-interpolated frames give %r (schedule %r)"
+                           % (t, tm, what, val, want, sched[:8]), dict(cs, step=t, field=what))
+
+            def judge_scalar(s, vals, t, what):
+                tm = t * dt
+                _, b = _lerp(tm, ft_arr, vals)
+                lo, hi = min(vals[b], vals[b + 1]), max(vals[b], vals[b + 1])
+                eq = (lambda a, b_: same_bits(a, b_)) if storage != "int16" else (lambda a, b_: close(a, b_, 1e-6, sabs))
+                # step-indexed expectation (what the design limitation F-C06e predicts), used only to narrow the known finding
+                step_ok = True
+                if not aligned_frames and strict_h:
+                    if t in steps_h:
+                        q = steps_h.index(t)
+                        step_ok = eq(s, vals[q]) or (t == 0 and q == 0 and q + 1 < len(vals) and eq(s, vals[q + 1]))   # F-C06a in step space
+                    else:
+                        _, bs = _lerp(float(t), st_arr, vals)
+                        step_ok = min(vals[bs], vals[bs + 1]) - sabs <= s <= max(vals[bs], vals[bs + 1]) + sabs
+                una = "C06.scalar.unaligned_dt" if step_ok else "C06.scalar.unaligned_dt.other"
+                if tm in ft:
+                    fr_i = ft.index(tm)
+                    # known finding F-C06a: starting ON THE FIRST FRAME (start-on-frame branch of the initialisation), at the start step
+                    # the scalar holds exactly the NEXT frame
+                    nxt = fr_i + 1 < len(vals) and eq(s, vals[fr_i + 1])      # bit-equal (float32 tolerance for int16-scaled files)
+                    pred = "C06.scalar.on_frame" if (t > 0 or not aligned_frames or not nxt or ft[0] != 0) else "C06.scalar.t0_next_frame"
+                    if not aligned_frames: pred = una
+                    ctx.oracle(eq(s, vals[fr_i]), pred, SITE,
+                               "step %d coincides with frame %d: served %s %r, frame holds %r" % (t, fr_i, what, s, vals[fr_i]), dict(cs, step=t, field=what))
+                else:
+                    pred = "C06.scalar.outside_bracket" if aligned_frames else una
+                    ctx.oracle(lo - sabs <= s <= hi + sabs, pred, SITE,
+                               "step %d: served %s %r outside the two enclosing frames [%r, %r]" % (t, what, s, lo, hi), dict(cs, step=t, field=what))
+
+            for t, sv in zip(sched, served):
                 tm = t * dt
                 if tm < ft_arr[0] or tm > ft_arr[-1]:
                     continue
-                b = int(np.searchsorted(ft_arr, tm, side="right") - 1)
-                b = min(b, len(ft) - 2)
-                w = (tm - ft_arr[b]) / (ft_arr[b + 1] - ft_arr[b])
-                want = uvals[b] + w * (uvals[b + 1] - uvals[b])
-                okv = close(u, want, 1e-9, 1e-12)
-                pred = "C06.velocity.not_interpolated" if aligned_frames else "C06.velocity.unaligned_dt"
-                ctx.oracle(okv, pred, SITE, "step %d (%d s): served U=%r, time-interpolated frames give %r (schedule %r)" % (t, tm, u, want, sched[:8]),
-                           dict(cs, step=t))
-                lo, hi = min(svals[b], svals[b + 1]), max(svals[b], svals[b + 1])
-                on_frame = tm in ft
-                if on_frame:
-                    fr_i = ft.index(tm)
-                    # known finding F-C06a: at the start step the scalar holds exactly the NEXT frame
-                    nxt = fr_i + 1 < len(svals) and same_bits(s, svals[fr_i + 1])
-                    pred = "C06.scalar.on_frame" if (t > 0 or not aligned_frames or not nxt) else "C06.scalar.t0_next_frame"
-                    if not aligned_frames: pred = "C06.scalar.unaligned_dt"
-                    ctx.oracle(same_bits(s, svals[fr_i]), pred, SITE,
-                               "step %d coincides with frame %d: served scalar %r, frame holds %r" % (t, fr_i, s, svals[fr_i]), dict(cs, step=t))
-                else:
-                    pred = "C06.scalar.outside_bracket" if aligned_frames else "C06.scalar.unaligned_dt"
-                    ctx.oracle(lo - 1e-9 <= s <= hi + 1e-9, pred, SITE,
-                               "step %d: served scalar %r outside the two enclosing frames [%r, %r]" % (t, s, lo, hi), dict(cs, step=t))
+                for ci, cl in enumerate(cells):
+                    judge_velocity(sv["U"][ci], uvals[ci], t, "U%r" % (cl,), SITE, "C06.velocity.not_interpolated")
+                    judge_velocity(sv["V"][ci], vvals[ci], t, "V%r" % (cl,), SITE, "C06.velocity.not_interpolated")
+                    judge_velocity(sv["velU"][ci], uvals[ci], t, "velocity(X,Y,Z)[0] at the U-node %r" % (cl,), SITE_VEL,
+                                   "C06.velocity.sampled_not_interpolated")
+                    judge_velocity(sv["velV"][ci], vvals[ci], t, "velocity(X,Y,Z)[1] at the V-node %r" % (cl,), SITE_VEL,
+                                   "C06.velocity.sampled_not_interpolated")
+                    for nm in names:
+                        judge_scalar(sv["S"][nm][ci], svals[nm][ci], t, "%s%r" % (nm, cl))
             strictly = all(x < y for x, y in zip(f.steps[:-1], f.steps[1:]))
             if not strictly:
                 ctx.branch("duplicate_steps_outside_model_domain")     # unaligned dt: covered by the known findings F-C06e-*
-            if drv.available and strictly:
+            if drv.available and strictly and storage == "f8":
                 a = drv.ask("roms.steps", I(dt), L(ft, I))
-                fr_toks = " ".join("%d %s %s" % (st_, F(uv), F(sv)) for st_, uv, sv in zip(f.steps, uvals, svals))
-                b0 = drv.ask("roms.run", "1 1 0", I(len(f.steps)), fr_toks, L(sched, I))
-                b1 = drv.ask("roms.run", "1 1 1", I(len(f.steps)), fr_toks, L(sched, I))
-                pend.append((a, b0, b1, list(f.steps), served, cs))
+                zeros = np.zeros(len(ft))
+                # (velocity component, scalar) pairs at the first cell: U with the first scalar, V with the last scalar
+                pairs = [("U", uvals[0], [x["U"][0] for x in served], names[0] if names else None),
+                         ("V", vvals[0], [x["V"][0] for x in served], names[-1] if names else None)]
+                for p_i, (comp, cv, cserved, nm) in enumerate(pairs):
+                    sv_f = svals[nm][0] if nm else zeros
+                    sserved = [x["S"][nm][0] for x in served] if nm else [0.0] * len(served)
+                    fr_toks = " ".join("%d %s %s" % (st_, F(uv), F(sv_)) for st_, uv, sv_ in zip(f.steps, cv, sv_f))
+                    b0 = drv.ask("roms.run", "1 1 0", I(len(f.steps)), fr_toks, L(sched, I))
+                    b1 = drv.ask("roms.run", "1 1 1", I(len(f.steps)), fr_toks, L(sched, I))
+                    pend.append((a if p_i == 0 else None, b0, b1, list(f.steps), list(zip(cserved, sserved)), dict(cs, component=comp, scalar=nm), comp))
     finally:
         shutil.rmtree(tmp, ignore_errors=True)
     if drv.available:
         rep = drv.run()
-        for a, b0, b1, steps, served, cs in pend:
-            ms = [int(x) for x in rep[a][1][1:]]
-            ctx.eq("forcing_steps", [int(s) for s in steps], ms, cs)
+        for a, b0, b1, steps, served, cs, comp in pend:
+            if a is not None:
+                ms = [int(x) for x in rep[a][1][1:]]
+                ctx.eq("forcing_steps", [int(s) for s in steps], ms, cs)
             best = None
             for b in (b0, b1):
                 st, t = rep[b]
@@ -162,10 +336,11 @@ def run(ctx):
                 ctx.disagreement("roms.run", "model could not initialise", cs); continue
             ctx.bit_exact += 2 * len(served)
             if not best[0]:
-                ctx.disagreement("forcing.U", "impl=%r model=%r" % ([x[0] for x in served][:6], [x[0] for x in best[2]][:6]), cs)
+                ctx.disagreement("forcing." + comp, "impl=%r model=%r" % ([x[0] for x in served][:6], [x[0] for x in best[2]][:6]), cs)
             if not best[1]:
                 ctx.disagreement("forcing.scalar", "impl=%r model=%r" % ([x[1] for x in served][:6], [x[1] for x in best[2]][:6]), cs)
-            ctx.branch("scalar_init_current" if best[3] else "scalar_init_next")
+            if cs.get("scalar"):
+                ctx.branch("scalar_init_current" if best[3] else "scalar_init_next")
 
 
 def replay(payload):
